@@ -210,6 +210,20 @@ def reader_paths(F, rep, which=("seal", "open")):
                 org = f.origins(o, through_calls=PASS_THROUGH + ("Deref::deref", "DerefMut::deref_mut", "load")) if o is not None and o.place is not None else set()
                 ok3 = ok3 and "call:load" in org and "call:lock" in org and "call:inner_unsynchronized" not in org
             ok3 = ok3 and len(gens) == 1
+        # ... and together: on the success edge every path to the return stores all three fields. Marking the cache
+        # fresh (generation) while keeping the old key loses the key that was just advanced by the callback.
+        if ok3:
+            oe = f.outcome_edges(isok[0])
+            missing = []
+            for fld in ("generation", "idx", "key"):
+                bs = {s.bb for s in cache_stores if s.place.last_field() == fld}
+                r = f.reachable(oe["true"][1], cut_blocks=bs)
+                if not bs or (r & set(f.returns())):
+                    missing.append(fld)
+            rep.check(not missing, "%s|cache-refresh-complete" % name, "K1 must-pass-through",
+                      "after a successful slow-path %s every path stores cache.generation, cache.idx and cache.key" % name,
+                      "ReadState::%s can mark its cache fresh without storing cache.%s on some successful path: the key advanced by the callback (its sequence number) is dropped "
+                      "and the next %s from the cache reuses it" % (name, "/".join(missing), name), f.site())
         rep.check(bool(ok3), "%s|cache-refresh" % name, "K2 guarded-by",
                   "cache.{idx, generation, key} are replaced only on the callback's is_ok edge; the new generation is read from the locked list",
                   "ReadState::%s refreshes its cache on failure, or tags it with a generation not read under the lock" % name, f.site())
